@@ -123,6 +123,34 @@ fn check_ty<T: Elem>(case: &Case) -> Result<(), String> {
             return Err(format!("DiplomatSliceMut<{}> over elements {}.. of a {}-element buffer converts back to ({:?},{})", ty, k, n, backm.as_mut_ptr(), backm.len()));
         }
     }
+    // empty windows of a live buffer: a zero-length view still carries the address it was made from
+    for k in 0..=n.min(4) {
+        label("empty-window");
+        let s: &[T] = &orig[k..k];
+        let v: DiplomatSlice<T> = s.into();
+        let d: &[T] = &v;
+        if d.as_ptr() != s.as_ptr() || !d.is_empty() {
+            return Err(format!("DiplomatSlice<{}> over the empty window at element {} of a {}-element buffer derefs to ({:?},{}) instead of ({:?},0)", ty, k, n, d.as_ptr(), d.len(), s.as_ptr()));
+        }
+        let back: &[T] = v.into();
+        if back.as_ptr() != s.as_ptr() || !back.is_empty() {
+            return Err(format!("DiplomatSlice<{}> over the empty window at element {} of a {}-element buffer converts back to ({:?},{}) instead of ({:?},0)", ty, k, n, back.as_ptr(), back.len(), s.as_ptr()));
+        }
+        let mut work = orig.clone();
+        let sm: &mut [T] = &mut work[k..k];
+        let pm = sm.as_mut_ptr();
+        let mut vm: DiplomatSliceMut<T> = sm.into();
+        {
+            let dm: &mut [T] = &mut vm;
+            if dm.as_mut_ptr() != pm || !dm.is_empty() {
+                return Err(format!("DiplomatSliceMut<{}> over the empty window at element {} of a {}-element buffer derefs to ({:?},{})", ty, k, n, dm.as_mut_ptr(), dm.len()));
+            }
+        }
+        let backm: &mut [T] = vm.into();
+        if backm.as_mut_ptr() != pm || !backm.is_empty() {
+            return Err(format!("DiplomatSliceMut<{}> over the empty window at element {} of a {}-element buffer converts back to ({:?},{})", ty, k, n, backm.as_mut_ptr(), backm.len()));
+        }
+    }
     // &mut [T] -> DiplomatSliceMut -> &mut [T], writing through it
     {
         let mut work = orig.clone();
@@ -280,6 +308,15 @@ fn check_str(case: &Case) -> Result<(), String> {
         let back: &str = v.into();
         if back != r || back.as_ptr() != r.as_ptr() {
             return Err(format!("DiplomatUtf8StrSlice -> &str differs for {:?}", r));
+        }
+        // empty windows at character boundaries
+        for (i, _) in r.char_indices().take(4).chain(core::iter::once((n, ' '))) {
+            let w: &str = &r[i..i];
+            let vw: DiplomatUtf8StrSlice = w.into();
+            let bw: &str = vw.into();
+            if bw.as_ptr() != w.as_ptr() || !bw.is_empty() {
+                return Err(format!("DiplomatUtf8StrSlice over the empty window at byte {} of {:?} converts back to ({:?},{})", i, r, bw.as_ptr(), bw.len()));
+            }
         }
     }
     {
